@@ -26,6 +26,8 @@ def pytest_configure(config):
   if os.environ.get('VF_ONLINE_RTCLASS'):
     from vf import foreign
     m.rt_classifier = foreign.classify_rt
+  from vf import foreign as _foreign
+  m.parse_failure_classifier = _foreign.classify_parse_failure
   m.install()
   _M[0] = m
 
